@@ -32,6 +32,15 @@ def fx(b, h=0):
     if len(b) - i >= 1:
         h = ((rotl5(h) ^ b[i]) * K) & M64
     return h
+# fixed pairs (seed 7), verified at import
+PAIRS_PLAIN = [("u8jzPde0IgxLd6Gn", "H1pJoi2CsyzGtYPZ"), ("ja0UA_vhtJju38E_", "0OVme2Z58BNB80zl"), ("vzXmbUFqx1pUYz80", "vZBoSvwFs1dQ9kM8")]
+PAIRS_LEN_PREFIXED = [("cn3woWzDi8FcMdo8", "SCFWVVcPn2Z44xLw"), ("J2Y6qDSrr1KOFQyj", "OfS3Z7R2TV8UqVod"), ("LnxX48No5bZEfOxA", "ktSxjVgJJmBduSrP")]
+for _x, _y in PAIRS_PLAIN:
+    assert _x != _y and fx(_x.encode()) == fx(_y.encode())
+for _x, _y in PAIRS_LEN_PREFIXED:
+    assert _x != _y and fx(_x.encode(), (16 * K) & M64) == fx(_y.encode(), (16 * K) & M64)
+ALL_PAIRS = PAIRS_PLAIN + PAIRS_LEN_PREFIXED
+
 if __name__ == "__main__":
     rng = random.Random(7)
     out = []
